@@ -88,6 +88,8 @@ def gen(rng, tier, index):
             if b["kind"] == "rigid":
                 b["theta"] = (np.array(b["theta"], dtype=float) * sc).tolist()
         scene["mass_scale"] = sc
+    if rng.random() < 0.3:
+        scene["t0"] = float(np.round(rng.uniform(-3.0, 8.0), 3))  # the time origin is arbitrary
     if rng.random() < 0.4:
         # the whole scene rigidly moved: gravity and plane normals then point in arbitrary directions
         rotate_contact_scene(scene, rot.rand_quat(rng), rng.uniform(-1, 1, 3))
